@@ -15,7 +15,10 @@ import (
 )
 
 // ErrSimTimeout is what a request to a silent peer ends with (the real message
-// sender's read timeout).
+// sender's read timeout). Packages that can import internal/net without a cycle
+// set it to net.ErrReadTimeout, the very error value the real sender returns, in
+// an init function, so that code which tells failures apart by errors.Is sees
+// what it would see in production.
 var ErrSimTimeout = errors.New("verifnet: read timeout")
 
 // ReadTimeout is the real message sender's read timeout, DialTimeout the
@@ -29,6 +32,7 @@ const (
 type Reply struct {
 	Latency time.Duration
 	Fail    bool        // the exchange fails after Latency
+	FailErr error       // if non-nil: the error a failing exchange returns (default: a plain error)
 	Silent  bool        // no answer: the request ends with the read timeout (or the caller's context)
 	Resp    *pb.Message // answer (round-tripped through its wire encoding before delivery)
 	Raw     []byte      // if non-nil: wire bytes of the answer (may be malformed: then the exchange fails like a decode error)
@@ -209,6 +213,9 @@ func (s *Sim) exchange(ctx context.Context, kind string, p peer.ID, req *pb.Mess
 	}
 	if r.Fail {
 		s.end(e, "fail", nil)
+		if r.FailErr != nil {
+			return nil, r.FailErr
+		}
 		return nil, fmt.Errorf("verifnet: exchange with %s failed", p)
 	}
 	if kind == "message" {
